@@ -1,5 +1,3 @@
-//@ attrs
-#[verifier::exec_allows_no_decreases_clause]
 //@ ret r
 //@ contract
     ensures
@@ -10,6 +8,7 @@
             invariant iter_wf(listing),
                 doc_ops::<Context>(openapi) + doc_of(rest(listing)) == doc_of(dfs(*self.router.root, Seq::<PathSegment>::empty(), Some(version))),   // @emitted_so_far_plus_what_is_ahead_is_the_visible_listing
             ensures doc_ops::<Context>(openapi) =~= doc_of(dfs(*self.router.root, Seq::<PathSegment>::empty(), Some(version))),
+            decreases rest(listing).len(),
 //@ loop 0 body_start
             proof {
                 // the item just taken was the head of what was ahead
